@@ -520,13 +520,13 @@ pub fn run(tier: &str) -> i32 {
     let quick = tier == "quick";
     // (theta, base n, base special, env max, diffs)
     let parts: Vec<(u32, usize, usize, usize)> = if quick {
-        vec![(1, 4, 2, 1), (2, 4, 2, 1)]
+        vec![(1, 4, 2, 1), (2, 3, 2, 1)]
     } else {
         vec![(1, 4, 3, 2), (2, 5, 2, 2), (3, 5, 2, 1)]
     };
     for (theta, n, sp, max_env) in parts {
         let mut base = ledger_alphabet(n, &[1], sp);
-        base.bodies = vec![chain::BODY_CB, chain::BODY_MULTI, chain::BODY_SPEND_PARENT];
+        base.bodies = vec![chain::BODY_CB, chain::BODY_MULTI, chain::BODY_SPEND_PARENT, chain::BODY_ZEROS];
         let mut env = Alphabet::tree(n + max_env, &[1, 3]);
         env.budgets = vec![0, 1];
         env.upgrades = vec![0];
